@@ -58,6 +58,16 @@ def load_module(world: World, interp: Interp, path: str, ns_name: str, rel: Opti
                     q = f"{rel}::{node.name}.{sub.name}"
                     world.functions[q] = FunctionInfo(q, sub, None, rel, ns_name)
             ns.setdefault(node.name, VClass(node.name, world.class_id(node.name)))
+        elif isinstance(node, ast.Import):
+            for al in node.names:
+                top = al.name.split(".")[0]
+                ns.setdefault(al.asname or top, VModule(al.name if al.asname else top))
+        elif isinstance(node, ast.ImportFrom):
+            for al in node.names:
+                if (al.asname or al.name) not in ns:
+                    from .symex import VExternal
+
+                    ns[al.asname or al.name] = VExternal(f"{node.module}.{al.name}")
         elif isinstance(node, (ast.Assign, ast.AnnAssign)):
             tgt = node.targets[0] if isinstance(node, ast.Assign) else node.target
             if isinstance(tgt, ast.Name) and node.value is not None:
